@@ -85,11 +85,8 @@ def setup():
             gap = sim.steps - sim.progress_at
             if gap > sim.max_gap:
                 sim.max_gap = gap
-            if gap > sim.max_gap_steps:
-                raise vloop.StepBound(f"more than {sim.max_gap_steps} traversal steps without any test or state "
-                                      f"operation starting or ending")
-            if sim.max_executions and sim.executions > sim.max_executions:
-                raise vloop.StepBound(f"more than {sim.max_executions} test executions")
+            if sim.steps % 64 == 0:
+                sim.watchdog()
         return original_cleanup_ready(self, worker)
 
     TestNode.is_cleanup_ready = is_cleanup_ready
@@ -468,13 +465,25 @@ class Sim:
         self.events = []
         self.steps = 0
         self.max_steps = 3_000_000
-        # watchdogs relative to progress: steps since the last start/end/state operation, and executions in total
-        # (set per case by the caller that knows the scenario; 0 = unbounded)
-        self.max_gap_steps = 3_000_000
-        self.max_executions = 0
+        # watchdogs relative to progress (see watchdog()): virtual time since the last start/end/state operation,
+        # and executions in total
         self.progress_at = 0
+        self.progress_t = 0.0
         self.max_gap = 0
+        self.max_idle_seen = 0.0
         self.executions = 0
+        # a traversal that neither sleeps nor starts anything is spinning: completed runs stay below a few thousand
+        # steps between two clock ticks (max_spin_seen is reported in the evidence)
+        self.clock_seen, self.clock_steps_at, self.max_spin_seen, self.spin_bound = 0.0, 0, 0, 50_000
+        try:
+            timeout = float(self.run_params.get("test_timeout") or 3600)
+        except (TypeError, ValueError):
+            timeout = 3600.0
+        try:
+            self.tries_bound = max(1, int(self.run_params.get("max_tries") or (2 if self.run_params.get("replay") else 1)))
+        except (TypeError, ValueError):
+            self.tries_bound = 3
+        self.idle_bound = 4 * timeout * self.tries_bound + 1000.0
         self.registrations = []
         self.attempts = {}
         self.workers = {}
@@ -492,9 +501,40 @@ class Sim:
         self.events.append(event)
         if kind in ("start", "end", "door"):
             self.progress_at = self.steps
+            self.progress_t = event["t"]
             if kind == "start":
                 self.executions += 1
         return event
+
+    def watchdog(self):
+        """Progress-relative bounds, so that a run that cannot end is given up long before the step bound.
+
+        Idle: the traversal itself gives up waiting for an occupied node after test_timeout * max_tries (twice that
+        for an object creation) and a test without a result is abandoned after 300 s of polling, so more than
+        4 * test_timeout * max_tries + 1000 virtual seconds without any test or state operation starting or ending
+        is not a wait any more.  Executions: no node is run more than max_tries times per worker (and per creation
+        step); six times that over all nodes and workers is far beyond any legitimate retrying.
+        """
+        if self.loop is None:
+            return
+        now = self.loop.time()
+        if now != self.clock_seen or self.progress_at > self.clock_steps_at:
+            self.clock_seen, self.clock_steps_at = now, self.steps
+        spinning = self.steps - self.clock_steps_at
+        self.max_spin_seen = max(self.max_spin_seen, spinning)
+        if spinning > self.spin_bound:
+            raise vloop.StepBound(f"more than {self.spin_bound} traversal steps without the clock advancing or any "
+                                  f"test or state operation starting or ending")
+        idle = now - self.progress_t
+        self.max_idle_seen = max(self.max_idle_seen, idle)
+        if idle > self.idle_bound:
+            raise vloop.StepBound(f"no test or state operation started or ended for {idle:.0f} > {self.idle_bound:.0f} "
+                                  f"virtual seconds while the workers keep traversing")
+        nodes = len(self.graph.nodes) if getattr(self, "graph", None) is not None else 150
+        limit = 6 * self.tries_bound * max(1, len(self.workers)) * max(10, nodes) + 100
+        if self.executions > limit:
+            raise vloop.StepBound(f"more than {limit} test executions for {nodes} nodes, {len(self.workers)} workers, "
+                                  f"max_tries {self.tries_bound}")
 
     def identity(self, node):
         suffix = node.params["_name_map_file"].get("nets.cfg", "")
